@@ -114,7 +114,8 @@ def _guarded(fn, seconds, *a):
     def onalarm(sig, frm):
         raise NativeTimeout('native run exceeded %ds' % seconds)
     old = signal.signal(signal.SIGALRM, onalarm)
-    signal.setitimer(signal.ITIMER_REAL, seconds)
+    from pyvc.smt import _load_scale
+    signal.setitimer(signal.ITIMER_REAL, seconds * _load_scale())     # wall clock, stretched on an overloaded machine
     try:
         return fn(*a)
     finally:
